@@ -162,9 +162,31 @@ type PathStats struct {
 // sequence is covered as a prefix), without deduplication. Sharded over the
 // first two actions.
 func Paths(nActions, depth int, newRunner func() Runner, stop func() bool) *PathStats {
+	return PathsFrom(nil, nActions, depth, newRunner, stop)
+}
+
+// PathsFrom is Paths restricted to sequences that start with fixed (the sequence
+// length is still depth, so len(fixed) actions are given and the rest is free).
+func PathsFrom(fixed []int, nActions, depth int, newRunner func() Runner, stop func() bool) *PathStats {
 	ps := &PathStats{Exhaustive: true}
 	var shards [][]int
-	if depth >= 2 {
+	if len(fixed) > 0 {
+		free := depth - len(fixed)
+		switch {
+		case free >= 2:
+			for a := 0; a < nActions; a++ {
+				for b := 0; b < nActions; b++ {
+					shards = append(shards, append(append([]int{}, fixed...), a, b))
+				}
+			}
+		case free == 1:
+			for a := 0; a < nActions; a++ {
+				shards = append(shards, append(append([]int{}, fixed...), a))
+			}
+		default:
+			shards = append(shards, append([]int{}, fixed...))
+		}
+	} else if depth >= 2 {
 		for a := 0; a < nActions; a++ {
 			for b := 0; b < nActions; b++ {
 				shards = append(shards, []int{a, b})
